@@ -5,8 +5,19 @@ open Conv
 
 let is_stat (s : sstate) c (v : cstat) = (s.stat (nat_of_int c)) = v
 
+(* accept goroutines whose listener was closed return at once, except one that
+   is being held by the harness between Accept and the admission step *)
+let acc_held = ref false
+
+let settle (s : sstate) : sstate =
+  let s = ref s in
+  let keep = if !acc_held then 1 else 0 in
+  while int_of_nat (!s).zombies > keep do s := step !s AcceptExit done;
+  !s
+
 let snapshot (s : sstate) =
-  Printf.sprintf "%d/%d" (if s.started then 1 else 0) (List.length s.clients)
+  Printf.sprintf "%d/%d/a%d" (if s.started then 1 else 0) (List.length s.clients)
+    (int_of_nat s.acceptors + int_of_nat s.zombies)
 
 let steps s ls = List.fold_left step s ls
 
@@ -14,6 +25,7 @@ let slots inp impl =
   match inp with
   | maxc :: ops ->
     let s = ref (init (nat_of_int (int_of_string maxc))) in
+    acc_held := false;
     let held = ref (-1) in
     let heldend = ref (-1) in
     let out = List.map (fun op ->
@@ -21,20 +33,22 @@ let slots inp impl =
         let i = if String.length op > 1 then int_of_string (String.sub op 1 (String.length op - 1)) else 0 in
         let c = nat_of_int i in
         match k with
-        | 'S' -> s := step !s Start; snapshot !s
+        | 'S' -> s := settle (step !s Start); snapshot !s
         | 'P' ->
           s := step !s Stop;
           (* every session whose socket Stop closed winds down *)
           List.iter (fun c ->
               if (!s).stat c = Serving then s := steps !s [End (c, ClosedByStop); Remove c]) (!s).clients;
+          (* the held accept goroutine belongs to the generation that was stopped *)
+          s := settle !s;
           snapshot !s
         | 'C' ->
           if not (!s).listening then "refused"
           else (s := steps !s [Arrive c; Take c; Enrol c]; snapshot !s)
         | 'T' ->
           if not (!s).listening then "refused"
-          else (s := steps !s [Arrive c; Take c]; held := i; "taken")
-        | 'E' -> s := step !s (Enrol (nat_of_int !held)); snapshot !s
+          else (s := steps !s [Arrive c; Take c]; held := i; acc_held := true; "taken")
+        | 'E' -> s := step !s (Enrol (nat_of_int !held)); acc_held := false; s := settle !s; snapshot !s
         | 'R' -> if enabled !s (Req c) then (s := step !s (Req c); "resp") else "closed"
         | 'D' -> s := steps !s [End (c, Disconnect); Remove c]; snapshot !s
         | 'X' -> s := step !s (End (c, Disconnect)); heldend := i; snapshot !s
@@ -66,4 +80,26 @@ let idle inp impl =
     (m, if m = impl then "1" else "0")
   | _ -> failwith "idle: bad input"
 
-let () = Registry.register "slots" slots; Registry.register "idle" idle
+(* burst: k simultaneous arrivals at a server with MaxClients = maxc *)
+let burst inp impl =
+  match inp with
+  | [maxc; k] ->
+    let maxc = int_of_string maxc and k = int_of_string k in
+    let s = ref (step (init (nat_of_int maxc)) Start) in
+    for i = 1 to k do let c = nat_of_int i in s := steps !s [Arrive c; Take c; Enrol c] done;
+    let n = List.length (!s).clients in
+    let resp = ref 0 and closed = ref 0 in
+    for i = 1 to k do
+      let c = nat_of_int i in
+      if enabled !s (Req c) then (incr resp; s := step !s (Req c)) else incr closed
+    done;
+    for i = 1 to k do let c = nat_of_int i in s := steps !s [End (c, Disconnect); Remove c] done;
+    let after = List.length (!s).clients in
+    let c = nat_of_int (k + 1) in
+    s := steps !s [Arrive c; Take c; Enrol c];
+    let m = Printf.sprintf "n=%d resp=%d closed=%d other=0 after=%d fresh=%s" n !resp !closed after
+        (if enabled !s (Req c) then "resp" else "closed") in
+    (m, if m = impl then "1" else "0")
+  | _ -> failwith "burst: bad input"
+
+let () = Registry.register "slots" slots; Registry.register "idle" idle; Registry.register "burst" burst
